@@ -1296,17 +1296,17 @@ MANIFEST = {
     "design_ref": "DESIGN.md 4/C16",
 }
 FINDINGS = [
-    {"status": "fixed", "key": "omega:bad-witness:[[2,-1],[-2,1]]", "commit": "18b27fb",
+    {"status": "fixed", "key": "omega:bad-witness:[[2,-1],[-2,1]]", "commit": "0df13d5",
      "what": "solve_matrix([[2,-1],[-2,1]]) = SAT {0: 1}: input rows were not gcd-normalised although solve/one_var_analysis assume it; "
              "also wrong UNSAT ([[-1,1],[2,-2],[1,-1]]), false constant rows ignored ([[1,0],[0,-1]] = SAT), TypeError on constant-only systems"},
-    {"status": "fixed", "key": "bb:wrong-unsat:[[-3,-3,4],[0,-2,3]]/gg", "commit": "5432cda",
+    {"status": "fixed", "key": "bb:wrong-unsat:[[-3,-3,4],[0,-2,3]]/gg", "commit": "7de0de5",
      "what": "Simplex.add_ineq left the slack variable of a non-unit single-variable constraint without a value when the variable was "
              "already known (KeyError in check); branch_and_bound swallows the error and reports 'no integer solution' for "
              "-3x-3y+4>=0, -2y+3>=0"},
-    {"status": "fixed", "key": "simplexhol:bad-witness:[[2,0,-1],[0,2,-2],[-2,0,-1]]/gll", "commit": "e8753aa",
+    {"status": "fixed", "key": "simplexhol:bad-witness:[[2,0,-1],[0,2,-2],[-2,0,-1]]/gll", "commit": "a2a285c",
      "what": "SimplexHOLWrapper.add_ineq named the slack variable after Simplex.index-1 although Simplex re-uses the slack of an equal "
              "linear form: 2*x0>=1, 2*x1>=2, 2*x0<=-1 was answered satisfiable with x0=1/2 (bound asserted on the wrong variable)"},
-    {"status": "fixed", "key": "omegahol:foreign-hypothesis", "commit": "6cc07e8",
+    {"status": "fixed", "key": "omegahol:foreign-hypothesis", "commit": "4af4c10",
      "what": "OmegaHOL.solve() returned the contradiction from the omega normal forms of the given inequalities, not from the given "
              "ones: [x < y, y < x] gave 0 <= -1*x + 1*y + -1, 0 <= 1*x + -1*y + -1 |- false; even 0 <= x came back as 0 <= 1 * x"},
 ]
